@@ -224,7 +224,11 @@ func (w *eWorld) ctx() string {
 
 func (w *eWorld) fail(oracle, class, format string, args ...interface{}) {
 	key := oracle + ":" + class + "@" + w.ctx()
-	w.stateBad = true
+	if oracle != "layout" {
+		// white-box layout differences are reported but the state is still
+		// expanded, so that their behavioural consequences are reported too
+		w.stateBad = true
+	}
 	if w.violSeen[key] {
 		return
 	}
